@@ -40,11 +40,121 @@ def cases(draw):
     return {"model": model, "points": pts, "deep_algorithms": draw(st.integers(0, 4)) == 0}
 
 
+TINY = [4e-13, -5e-13, 2.5e-14, 1e-15]
+
+
+@st.composite
+def handbuilt_cases(draw):
+    """hand-built LPs whose data is the drawn data itself (exact oracle): tiny coefficients next to ordinary ones (nothing may be
+    flushed to zero), 64-70 variables (size-gated paths), and a history inside one case - model A extracted and dropped, model B
+    of the same size over other names extracted, then B's objective replaced by one over a third vector of the same size"""
+    n = draw(st.sampled_from([2, 3, 5, 8, 64, 70]))
+    tiny = draw(st.booleans())
+
+    def coef():
+        if tiny and draw(st.integers(0, 2)) == 0:
+            return draw(st.sampled_from(TINY))
+        return float(draw(st.sampled_from([1, 2, 3, -1, -2, 0.5, 0, 4, -3, 8])))
+
+    def vec():
+        v = [coef() for _ in range(n)]
+        if not any(v):
+            v[0] = 1.0
+        return v
+    return {"special": "handbuilt", "n": n, "tiny": tiny, "cA": vec(), "cB": vec(), "cC": vec(), "rowA": vec(), "rowB": vec(),
+            "bA": float(draw(st.integers(-3, 9))), "bB": float(draw(st.integers(-3, 9))),
+            "names": draw(st.sampled_from([["a", "b", "c"], ["x", "x", "y"], ["u", "v", "u"], ["b0_", "k", "b0_"]])),
+            "spell": draw(st.sampled_from(["terms", "c@x", "terms-reversed", "x@c"])), "sense": draw(st.sampled_from(["minimize", "maximize"])),
+            "rowsense": draw(st.sampled_from(["<=", ">="]))}
+
+
 def strategy(tier):
-    return cases()
+    return st.one_of(cases(), cases(), cases(), cases(), cases(), cases(), cases(), handbuilt_cases())
+
+
+def _exact(got, want):
+    return got is not None and np.shape(got) == np.shape(want) and np.array_equal(np.asarray(got, dtype=float), np.asarray(want, dtype=float))
+
+
+def _check_handbuilt(case):
+    from optyx import Problem, VectorVariable
+    from optyx.analysis import LinearProgramExtractor
+    n = case["n"]
+    classes = ["handbuilt", f"n:{'>=64' if n >= 64 else '<64'}", "tiny" if case["tiny"] else "ordinary", "spell:" + case["spell"]]
+
+    def lin(cv, x):
+        cv = np.array(cv, dtype=float)
+        if case["spell"] == "c@x":
+            return cv @ x
+        if case["spell"] == "x@c":
+            return x @ cv
+        idx = list(range(n)) if case["spell"] == "terms" else list(range(n - 1, -1, -1))
+        e = None
+        for i in idx:
+            t = float(cv[i]) * x[i]
+            e = t if e is None else e + t
+        return e
+
+    def judge(P, names_, cv, row, rs, bv, step):
+        lp = LinearProgramExtractor().extract(P)
+        if list(lp.variables) != names_:
+            return Result.violation("handbuilt:variables", f"{step}: LP.variables={list(lp.variables)[:6]}.., expected {names_[:6]}..; {case}", classes)
+        if not _exact(lp.c, cv):
+            return Result.violation("handbuilt:cost-vector", f"{step}: LP.c={np.asarray(lp.c).tolist()} expected {cv} (n={n}, spelling {case['spell']})", classes)
+        wantA = np.array([row], dtype=float) * (1.0 if rs == "<=" else -1.0)
+        wantb = np.array([bv], dtype=float) * (1.0 if rs == "<=" else -1.0)
+        if not _exact(lp.A_ub, wantA) or not _exact(lp.b_ub, wantb):
+            return Result.violation("handbuilt:A_ub", f"{step}: LP.A_ub={None if lp.A_ub is None else np.asarray(lp.A_ub).tolist()} b_ub={lp.b_ub} expected "
+                                                      f"{wantA.tolist()} / {wantb.tolist()} (n={n}, spelling {case['spell']})", classes)
+        return None
+
+    with quiet():
+        try:
+            nA, nB, nC = case["names"]
+            rs = case["rowsense"]
+            # model A: built, extracted, dropped
+            xa = VectorVariable(nA, n, lb=0, ub=10)
+            PA = Problem()
+            (PA.minimize if case["sense"] == "minimize" else PA.maximize)(lin(case["cA"], xa))
+            PA.subject_to(lin(case["rowA"], xa) <= case["bA"] if rs == "<=" else lin(case["rowA"], xa) >= case["bA"])
+            r = judge(PA, [v.name for v in xa], case["cA"], case["rowA"], rs, case["bA"], "model A")
+            if r:
+                return r
+            del PA, xa
+            import gc
+            gc.collect()
+            # model B: same size, other (or the same) names
+            xb = VectorVariable(nB, n, lb=0, ub=10)
+            PB = Problem()
+            (PB.minimize if case["sense"] == "minimize" else PB.maximize)(lin(case["cB"], xb))
+            PB.subject_to(lin(case["rowB"], xb) <= case["bB"] if rs == "<=" else lin(case["rowB"], xb) >= case["bB"])
+            r = judge(PB, [v.name for v in xb], case["cB"], case["rowB"], rs, case["bB"], "model B (after A was dropped)")
+            if r:
+                return r
+            # B's objective replaced by one over the same vector with other data, then (fresh problem) over a third vector
+            (PB.minimize if case["sense"] == "minimize" else PB.maximize)(lin(case["cC"], xb))
+            r = judge(PB, [v.name for v in xb], case["cC"], case["rowB"], rs, case["bB"], "model B after its objective was replaced")
+            if r:
+                return r
+            if nC != nB:
+                xc = VectorVariable(nC, n, lb=0, ub=10)
+                PC = Problem()
+                PC.minimize(lin(case["cA"], xc))
+                PC.subject_to(lin(case["rowB"], xc) <= case["bA"] if rs == "<=" else lin(case["rowB"], xc) >= case["bA"])
+                for _ in range(3):
+                    PC.minimize(lin(case["cC"], xc))
+                    r = judge(PC, [v.name for v in xc], case["cC"], case["rowB"], rs, case["bA"], "model C after repeated objective replacement")
+                    if r:
+                        return r
+                    PC.minimize(lin(case["cA"], xc))
+        except Exception as ex:
+            return Result.violation(f"handbuilt-raises:{exc_label(ex)}", f"{case}: {ex!r}", classes)
+    return Result.ok(True, classes)
 
 
 def sample_repr(case):
+    if case.get("special") == "handbuilt":
+        return {k: case[k] for k in ("special", "n", "tiny", "spell", "names", "sense")}
     return models.describe(case["model"])
 
 
@@ -78,6 +188,8 @@ def selfcheck(model):
 def check(case):
     from optyx.analysis import LinearProgramExtractor, extract_constant_term, extract_linear_coefficient
 
+    if case.get("special") == "handbuilt":
+        return _check_handbuilt(case)
     model = case["model"]
     names, d = model["names"], model["data"]
     selfcheck(model)
